@@ -245,8 +245,17 @@ func (w *World) sameGoroutineReach(root *ssa.Function, siteOK func(ssa.CallInstr
 			if _, isGo := in.(*ssa.Go); isGo {
 				return
 			}
-			if p.Fn == root && siteOK != nil && !siteOK(c) {
-				return
+			// the filter applies to the root and to the private helpers that are part of it (virtual inlining); the call of
+			// such a helper is itself transparent, its own call sites are filtered
+			if (p.Fn == root || regionRoot(p.Fn) == root) && siteOK != nil && !siteOK(c) {
+				// ... unless it is the call of a private helper that holds accepted sites itself (the loop split off)
+				h := inlinedCallee(in)
+				if h == nil || !mayExecute(h, func(x ssa.Instruction) bool {
+					ci, isCI := x.(ssa.CallInstruction)
+					return isCI && siteOK(ci)
+				}, 1) {
+					return
+				}
 			}
 			for _, callee := range w.rootCalleesThroughWrappers(c) {
 				if _, seen := out[callee]; !seen {
